@@ -159,4 +159,21 @@ def signBytes (m : Msg) : List Char :=
         field "height" (q (str (toString m.height))), field "round" (q (str (toString m.round))),
         field "timestamp" (q (canonicalTime m.tsMs)), field "type" (str (toString m.type)) ]
 
+/-! ## duplicate-vote evidence (types/evidence.go DuplicateVoteEvidence.Verify) -/
+
+inductive DupErr where
+  | ok | hrs | addr | index | sameBlock | pubkey | sigA | sigB
+deriving DecidableEq, Repr
+
+/-- the checks in the order of the code; `kaddr` = address of the public key the evidence is verified with -/
+def dupEvVerify (verify : Verify) (chain : List UInt8) (key : Nat) (kaddr : List UInt8) (a b : Vote) : DupErr :=
+  if a.height ≠ b.height ∨ a.round ≠ b.round ∨ a.type ≠ b.type then .hrs
+  else if a.addr ≠ b.addr then .addr
+  else if a.idx ≠ b.idx then .index
+  else if a.bid = b.bid then .sameBlock
+  else if kaddr ≠ a.addr then .pubkey
+  else if !verify key (msgOf chain a) a.sig then .sigA
+  else if !verify key (msgOf chain b) b.sig then .sigB
+  else .ok
+
 end Model.Vote
